@@ -270,7 +270,13 @@ def run_actions(runner, actions):
     sim = runner.sim
     for act in actions:
         k = act[0]
-        if k.endswith("*"):
+        if k == "dlv*":
+            d, a = act[1], act[2]
+            ws = [i for i, w in enumerate(sim.wires) if w.ends[0].owner == d and w.ends[0].dest[1] == sim.port(a)]
+            if ws:
+                runner.apply(["dlv", ws[-1], act[3], act[4], act[5] if len(act) > 5 else False,
+                              act[6] if len(act) > 6 else False])
+        elif k.endswith("*"):
             d, a = act[1], act[2]
             cands = [s for s in sim.fabric.socks.values()
                      if s.owner == d and s.dest and s.dest[1] == sim.port(a) and s.kind != "listening"
@@ -284,11 +290,6 @@ def run_actions(runner, actions):
                 runner.apply(["cev", s.fd, act[3], act[4]])
             elif k == "err*":
                 runner.apply(["err", s.fd, act[3], act[4]])
-            elif k == "dlv*":
-                ws = [i for i, w in enumerate(sim.wires) if w.ends[0].owner == d and w.ends[0].dest[1] == sim.port(a)]
-                if ws:
-                    runner.apply(["dlv", ws[-1], act[3], act[4], act[5] if len(act) > 5 else False,
-                                  act[6] if len(act) > 6 else False])
         elif k == "heal":
             runner.heal()
         else:
@@ -394,6 +395,29 @@ def directed():
                                    ["send", 0, ["ro", 0], 2, False, False], ["dlv", 2, 1, 99, False, False],
                                    ["restart", 2, False], ["heal"], ["send", 0, ["ro", 0], 3, False, False],
                                    ["send", 0, ["ro", 1], 3, False, False]]))
+    # black hole right after establishment while the application keeps ticking and sending (nothing is ever delivered,
+    # no FIN/RST, local writes accepted): only the read-timeout check inside send() can notice
+    bh = []
+    for r in range(20):
+        bh += [["adv", 256], ["tick", 0, []], ["tick", 1, []], ["send", 1, ["tcp", 0], 100 + r, False, False],
+               ["send", 0, ["tcp", 1], 200 + r, False, False]]
+    S.append(("blackhole-while-sending", base, up + bh))
+    S.append(("blackhole-one-way-silence", base, up + [x for r in range(20) for x in
+                                                      (["adv", 256], ["send", 1, ["tcp", 0], 300 + r, False, False],
+                                                       ["dlv*", 1, 0, 0, 99])] + [["heal"]]))
+    # two observers join, one leaves, a third joins: ids of connected read-only nodes are never handed out again (C18)
+    ro2 = {"n": 3, "retry": 512, "timeout": 4096, "readonly": [1, 2]}
+
+    def join(dd):
+        return [["tick", dd, []], ["syn_ok*", dd, 0], ["accept", 0], ["cev*", dd, 0, False, False], ["dlv*", dd, 0, 0, 99]]
+    S.append(("readonly-join-leave-join", ro2,
+              [["tick", 0, []]] + join(1) + join(2) +
+              [["send", 0, ["ro", 0], 1, False, False], ["dlv*", 1, 0, 1, 99], ["send", 0, ["ro", 1], 2, False, False],
+               ["dlv*", 2, 0, 1, 99], ["send", 2, ["tcp", 0], 3, False, False], ["dlv*", 2, 0, 0, 99],
+               ["restart", 1, False], ["dlv*", 1, 0, 0, 99]] + join(1) +
+              [["send", 0, ["ro", 1], 4, False, False], ["dlv*", 2, 0, 1, 99], ["send", 0, ["ro", 2], 5, False, False],
+               ["dlv*", 1, 0, 1, 99], ["send", 2, ["tcp", 0], 6, False, False], ["dlv*", 2, 0, 0, 99],
+               ["err*", 2, 0, "eof", False]] + join(2) + [["send", 0, ["ro", 3], 7, False, False], ["heal"]]))
     return S
 
 
@@ -482,7 +506,16 @@ def random_cfg(rng):
     cfg = {"n": n, "retry": rng.choice([0, 512, 2048]), "timeout": rng.choice([1024, 4096])}
     if n >= 3 and rng.random() < 0.3:
         cfg["readonly"] = [n - 1]
+    elif n >= 4 and rng.random() < 0.5:
+        cfg["readonly"] = [n - 2, n - 1]
     return cfg
+
+
+def readonly_cfg(rng):
+    """Configurations for the C18 run: one voter pair or a single voter plus one or two read-only transports."""
+    n = rng.choice([3, 3, 4])
+    return {"n": n, "retry": rng.choice([0, 512]), "timeout": rng.choice([1024, 4096]),
+            "readonly": [n - 1] if rng.random() < 0.4 else [n - 2, n - 1]}
 
 
 # ------------------------------------------------------------------------------------------------
@@ -598,13 +631,14 @@ def run(ctx):
         for name, cfg, actions in directed():
             one("directed:" + name, dict(cfg), lambda r, actions=actions: run_actions(r, actions))
         # 3. seeded random schedules, each ending in the fair tail
-        nsched = ctx.scale(60, 1500)
+        c18 = getattr(ctx, "pid", "") == "C18"      # for C18 only worlds with read-only nodes, smaller budget
+        nsched = ctx.scale(25, 400) if c18 else ctx.scale(60, 1500)
         length = ctx.scale(120, 200)
-        budget = ctx.scale(12, 240)
+        budget = (ctx.scale(6, 90) if c18 else ctx.scale(12, 240))
         for k in range(nsched):
             if time.time() - t0 > budget:
                 break
-            cfg = random_cfg(rng)
+            cfg = readonly_cfg(rng) if c18 else random_cfg(rng)
             one("random:%d" % k, cfg, lambda r: (random_schedule(rng, r, length), r.heal()))
     finally:
         drv.close()
@@ -654,7 +688,12 @@ def search(ctx, unproved):
 
 def replay(ctx, violation):
     rp = violation.get("replay") or {}
-    d, v = replay_actions(ctx.repo, rp["cfg"], rp["actions"], heal=rp.get("heal", False))
+    # the property monitors alone decide (real code only); the model comparison is reported next to it
+    _, v = replay_actions(ctx.repo, rp["cfg"], rp["actions"], heal=rp.get("heal", False), diff=False)
+    try:
+        d, _ = replay_actions(ctx.repo, rp["cfg"], rp["actions"], heal=rp.get("heal", False), diff=True)
+    except Exception as e:
+        d = {"error": repr(e)}
     sigs = sorted(set(x["signature"] for x in v))
     return {"violated": violation.get("signature") in sigs, "signatures": sigs,
-            "model_disagreement": d, "events": len(rp["actions"])}
+            "what": [x["what"] for x in v][:3], "model_disagreement": d, "events": len(rp["actions"])}
